@@ -27,6 +27,9 @@ Verdict(o) ==
          ELSE IF o.outcome \in {"client_err", "refused_4xx"} THEN "viol-core-value-not-delivered"
          ELSE "viol-neither-delivered-nor-refused"
     [] o.kind = "body" -> IF BodyOK(o.sent, o.outcome, o.got, o.mwgot) THEN "ok" ELSE "viol-body-delivered-changed"
+    [] o.kind = "form" -> IF FormOK(o.sent, o.outcome, o.got, o.mwgot) THEN "ok" ELSE "viol-form-body-delivered-changed"
+    \* a streamed (application/octet-stream) request and response body: the bytes, unchanged
+    [] o.kind = "stream" -> IF o.outcome = "ok" /\ o.got = o.sent /\ o.rgot = o.rsent THEN "ok" ELSE "viol-streamed-body-delivered-changed"
     [] o.kind = "resp" -> RespVerdict(o)
 VARIABLE l
 Init == l = 0
